@@ -75,7 +75,7 @@ def np_namespace(ctx, space):
 
     def zeros_like(ex, v):
         if isinstance(v, LinVec):
-            return space.zero()
+            return ex.ctx.ghost["space"].zero()
         raise OutsideSubset("zeros_like")
 
     def isnan(ex, x):
@@ -94,9 +94,11 @@ class World:
         self.it = it
         self.ctx = ctx
         self.space = Space(ctx)
+        ctx.ghost["space"] = self.space
         self.trace = []
-        self.fault = fault  # C12: every system / solver call may raise ValueError or return NaN
-        it.ext_modules["numpy"] = np_namespace(ctx, self.space)
+        self.fault = fault  # C12: set of stub names that may raise mici.errors.LinAlgError (non-finite user-function output)
+        self.fault_hits = []
+        it.ext_modules.setdefault("numpy", np_namespace(None, None))
         self.mod = it.module(INTEG)
         self.ex = Exec(it, ctx, self.mod, self.mod.env, "harness")
         self.system = self.make_system(constrained)
@@ -134,9 +136,17 @@ class World:
             ex.setattr(state, "pos", sp.apply_fn("h2flow_pos", q, p, dt))
             ex.setattr(state, "mom", sp.apply_fn("h2flow_mom", q, p, dt))
 
+        def lib_fault(ex, fname):
+            """NaN returned by a user function makes the *library's* matrix constructors raise mici.errors.LinAlgError"""
+            if w.fault and fname in w.fault and ex.ctx.choose(2, f"{fname}-nan") == 1:
+                w.fault_hits.append(fname)
+                le = ex.interp.module("mici.errors").resolve("LinAlgError", ex.ctx)
+                raise PyRaise(ex.call(le, ["Array is not finite."], {}))
+
         def mk(fname, reads):
             def f(ex, state):
                 w.ev(fname, state)
+                lib_fault(ex, fname)
                 return sp.apply_fn(fname, *[w.var(state, r) for r in reads])
             return Native(f, fname)
 
@@ -146,6 +156,7 @@ class World:
 
         def project(ex, mom, state):
             w.ev("project_onto_cotangent_space", state, mom)
+            lib_fault(ex, "project_onto_cotangent_space")
             return sp.apply_fn("project", mom, w.var(state, "pos"))
 
         attrs = dict(h1_flow=Native(h1_flow, "system.h1_flow"), h2_flow=Native(h2_flow, "system.h2_flow"),
